@@ -17,10 +17,10 @@ import PPModel.Mod.PRHeap
   `ret._tokdict` is what `copy()` made (`self._tokdict.copy()`, results.py:581): the occurrence lists — and hence the
   *named* values — are never visited by the loop.  That is the registered finding `deepcopy_named_group_aliased`.
 
-  The loop stores `ret._toklist[i]` after each recursive call; the model threads the heap through the calls in the
-  same order (so every allocation gets the same id) and stores the rebuilt token list once, after the loop.  The two
-  agree because the recursive calls only allocate (they write to no existing cell, see `deepcopyN_ext` in
-  PPProofs/Lemmas/PRHeapDeep.lean) and never read `ret._toklist`.
+  The loop stores `ret._toklist[i]` after each recursive call: that is `deepcopyLoop` below.  `deepcopyN` threads the
+  heap through the calls in the same order (so every allocation gets the same id) and stores the rebuilt token list
+  once, after the loop; the two are proved equal on every well-formed token tree (`deepcopyLoop_eq`,
+  PPProofs/Props/C11Deep.lean), because a recursive call neither reads nor writes `ret._toklist`.
 
   Termination: Python recurses until the token tree ends (a cyclic token structure gives RecursionError).  The model
   takes `fuel`; `fuel = 0` is `copy()` (exact for an object without nested results).  The theorems are stated for
